@@ -529,7 +529,26 @@ func (p *Prog) callRoots(c *ssa.Call, idx int, visiting map[ssa.Value]bool, dept
 	} else if p.CG != nil {
 		callees = p.Callees(p.CG, c)
 		if len(callees) > 6 {
-			return []Root{{Kind: RUnknown, Name: "dynamic call " + p.calleeName(cc), Typ: c.Type()}}
+			// too many targets to substitute each summary (registry dispatch: filters, tag parsers); keep what
+			// matters most for ownership: a target that hands out a package-level object
+			out := []Root{{Kind: RUnknown, Name: "dynamic call " + p.calleeName(cc), Typ: c.Type()}}
+			seenG := map[string]bool{}
+			for _, f := range callees {
+				if !p.InPkg(f) || f.Blocks == nil {
+					continue
+				}
+				sum := p.summary(f)
+				if idx >= len(sum.Returns) {
+					continue
+				}
+				for _, r := range sum.Returns[idx] {
+					if r.Kind == RGlobal && !seenG[r.Name] {
+						seenG[r.Name] = true
+						out = append(out, r)
+					}
+				}
+			}
+			return out
 		}
 	}
 	if len(callees) == 0 {
@@ -625,6 +644,8 @@ type Effect struct {
 	Desc   string
 	Roots  []Root
 	Via    string // non-empty if inherited from a callee: call chain
+
+	Atomic bool // written through sync/atomic (a mutation, but not a data race)
 
 	OrigFn    *ssa.Function // set on inherited effects: where the store really is
 	OrigInstr ssa.Instruction
@@ -743,6 +764,19 @@ var extWrites = map[string][]int{
 	"(*sync.RWMutex).RLock": nil, "(*sync.RWMutex).RUnlock": nil,
 }
 
+// isAtomicWrite: sync/atomic functions and methods that write through their first argument / receiver.
+func isAtomicWrite(name string) bool {
+	if !strings.Contains(name, "sync/atomic.") {
+		return false
+	}
+	for _, w := range []string{"Add", "Store", "Swap", "CompareAndSwap", "And", "Or"} {
+		if strings.Contains(name, "atomic."+w) || strings.Contains(name, ")."+w) {
+			return true
+		}
+	}
+	return false
+}
+
 // directEffects lists the store-like instructions of f with their targets and roots.
 func (p *Prog) directEffects(f *ssa.Function) []Effect {
 	var out []Effect
@@ -845,11 +879,16 @@ func (p *Prog) directEffects(f *ssa.Function) []Effect {
 					continue
 				}
 				name := p.extName(callee)
-				if idxs, ok := extWrites[name]; ok {
+				idxs, ok := extWrites[name]
+				atomicW := false
+				if !ok && isAtomicWrite(name) {
+					idxs, ok, atomicW = []int{0}, true, true
+				}
+				if ok {
 					args := callArgs(cc)
 					for _, i := range idxs {
 						if i < len(args) {
-							e := Effect{Fn: f, Instr: in, Kind: "extwrite", Roots: p.Roots(args[i])}
+							e := Effect{Fn: f, Instr: in, Kind: "extwrite", Roots: p.Roots(args[i]), Atomic: atomicW}
 							if ow := ownerOfLoadedFrom(stripConv(args[i])); ow != nil {
 								e.Target = *ow
 							} else if g, isG := args[i].(*ssa.Global); isG {
